@@ -228,6 +228,18 @@ func (e *cpEngine) builtin(fr *cpFrame, name string, args []cpVal, typ types.Typ
 			}
 			return cpNil{}, true
 		}
+	case "Add":
+		// unsafe.Add(p, n) on an unknown address
+		if len(args) == 2 {
+			if k, ok := args[1].(cpInt); ok {
+				switch a := args[0].(type) {
+				case cpUnk:
+					return cpLin{ID: a.ID, Mul: 1, Add: k.V}, true
+				case cpLin:
+					return cpLin{ID: a.ID, Mul: a.Mul, Add: a.Add + k.V}, true
+				}
+			}
+		}
 	case "min", "max":
 		if len(args) == 2 {
 			a, ok1 := args[0].(cpInt)
@@ -378,6 +390,16 @@ func (e *cpEngine) external(q string, args []cpVal, resT types.Type) (cpVal, boo
 				return cpStr{strings.ToUpper(a)}, true
 			default:
 				return cpStr{strings.TrimSpace(a)}, true
+			}
+		}
+	case "strings.SplitSeq":
+		if a, ok1 := str(0); ok1 {
+			if b, ok2 := str(1); ok2 {
+				it := cpIterSeq{}
+				for _, p := range strings.Split(a, b) {
+					it.Vals = append(it.Vals, cpStr{p})
+				}
+				return it, true
 			}
 		}
 	case "strings.Split":
